@@ -25,7 +25,7 @@ Definition chain_cleared (a : chain_args) (kb : bool) (s : state) : state :=
     <| on_error := None |>
     <| ev_enabled := [] |> <| ev_gosub := [] |> <| ev_stopped := [] |> <| ev_suspend := false |>
     <| gosub_stack := [] |> <| for_stack := [] |> <| while_stack := [] |>
-    <| stop_pos := None |> <| data_pos := 0 |>.
+    <| stop_pos := None |> <| data_pos := 0 |> <| math_raise := false |>.
 
 (* ... the new program loaded / merged, stacks and pointers cleared *)
 Definition chain_loaded (a : chain_args) (kb : bool) (s : state) : state :=
